@@ -21,7 +21,10 @@ import (
 var c20Ops = []string{"none", "dup-id", "dup-destination", "shadow-id-before", "shadow-id-after", "shadow-all-after", "second-issuer-last", "second-issuer-first", "issuer-after-status",
 	"nested-issuer", "foreign-ns-issuer", "comment-in-issuer", "cdata-in-issuer", "charref-in-issuer", "whitespace-around-issuer", "xml-decl-and-comment", "dup-version", "dup-inresponseto", "issuer-empty-then-real", "trailing-issuer", "pi-in-issuer", "pi-before-issuer-text", "envelope-issuer-differs",
 	"encrypted-issuer-after-issuer", "encrypted-issuer-last", "encrypted-issuer-first", "encrypted-status-last",
-	"nsdecl-id-after", "nsdecl-id-before", "nsdecl-all-after", "second-root-trailing", "second-root-leading", "nsdecl-id-used-in-keyinfo", "polyglot-directive-stored-block"}
+	"nsdecl-id-after", "nsdecl-id-before", "nsdecl-all-after", "second-root-trailing", "second-root-leading", "nsdecl-id-used-in-keyinfo", "polyglot-directive-stored-block",
+	// children of the wrapper that are named like something the decoders know but live in another namespace
+	// (extension content), and root attributes taken away
+	"foreign-ns-signature-child-first", "foreign-ns-signature-child-last", "foreign-ns-unqualified-signature-child", "foreign-ns-assertion-child", "version-stripped", "destination-stripped"}
 
 // operators an attacker can apply to a SIGNED envelope as well: namespace declarations for prefixes
 // nobody uses are dropped by exclusive canonicalisation, so the signature still verifies
@@ -440,6 +443,37 @@ func c20Apply(xml, op string, m *world.LResponse, other string) (string, bool) {
 		}
 		i := strings.LastIndex(xml, "</")
 		return xml[:i] + ex + xml[i:], true
+	case "foreign-ns-signature-child-first", "foreign-ns-signature-child-last", "foreign-ns-unqualified-signature-child", "foreign-ns-assertion-child":
+		el := `<audit:Signature xmlns:audit="urn:example:audit" by="router-7">c2lnbmVkLW9mZi1ieS1hdWRpdA==</audit:Signature>`
+		switch op {
+		case "foreign-ns-unqualified-signature-child":
+			el = `<Signature xmlns="urn:example:audit"><SignedInfo>not xmldsig</SignedInfo></Signature>`
+		case "foreign-ns-assertion-child":
+			el = `<audit:Assertion xmlns:audit="urn:example:audit" ID="_audit1">routed</audit:Assertion>`
+		}
+		if op == "foreign-ns-signature-child-first" {
+			return strings.Replace(xml, issEl, issEl+el, 1), true
+		}
+		i := strings.LastIndex(xml, "</")
+		return xml[:i] + el + xml[i:], true
+	case "version-stripped":
+		for _, v := range []string{` Version=` + q + `2.0` + q} {
+			if i := strings.Index(xml, v); i > 0 && i < strings.Index(xml, ">") {
+				return xml[:i] + xml[i+len(v):], true
+			}
+		}
+		return xml, false
+	case "destination-stripped":
+		gtRoot := strings.Index(xml, ">")
+		i := strings.Index(xml, ` Destination=`+q)
+		if i < 0 || i > gtRoot {
+			return xml, false
+		}
+		j := strings.Index(xml[i+14:], q)
+		if j < 0 {
+			return xml, false
+		}
+		return xml[:i] + xml[i+14+j+1:], true
 	case "xml-decl-and-comment":
 		if strings.HasPrefix(xml, "<?xml") {
 			return xml, false
